@@ -96,7 +96,7 @@ Record command := mkC { c_name : option bytes; c_base : option bytes; c_methods 
 Record summary := mkS { s_name : bytes; s_fields : list ufield }.
 (* q_list_settings: the query block carries listRequest / eventsListRequest settings *)
 Record query := mkQ { q_events_in_get : bool; q_default_status : list bytes; q_list_settings : bool }.
-Record entity := mkE {
+Record entity := mkE12 {
   e_pkg : bytes;                              (* dotted package name *)
   e_name : bytes;
   e_base_url : bytes;                         (* "" = default *)
@@ -107,7 +107,10 @@ Record entity := mkE {
   e_commands : list command;
   e_summaries : list summary;
   e_query : option query;
-  e_schemas : list eschema }.
+  e_schemas : list eschema;
+  e_status_num : list N }.                   (* the `number` a status declares, in order; 0 / missing = none *)
+(* a declaration whose statuses declare no numbers *)
+Notation mkE p n b k d s ev c su q sc := (mkE12 p n b k d s ev c su q sc []) (only parsing).
 
 (* ---- what is emitted ------------------------------------------------------- *)
 Inductive otype :=
@@ -244,16 +247,23 @@ Fixpoint number_from (i : N) (prefix : bytes) (l : list bytes) : list (bytes * N
   | [] => []
   | s :: r => (status_value_name prefix s, i) :: number_from (N.succ i) prefix r
   end.
-Definition status_values (prefix : bytes) (l : list bytes) : list (bytes * N) :=
+(* [n0]: the number the FIRST option declares (0 = none).  visitEnumNode numbers the options by
+   POSITION; a declared number is ignored, except that a first option ending in UNSPECIFIED takes
+   slot 0 only when it declares no (non-zero) number *)
+Definition status_values_n (prefix : bytes) (l : list bytes) (n0 : N) : list (bytes * N) :=
   match l with
   | s :: r =>
-      if has_suffix (bs "UNSPECIFIED") s
+      if has_suffix (bs "UNSPECIFIED") s && (n0 =? 0)
       then (status_value_name prefix s, 0) :: number_from 1 prefix r
       else (prefix ++ bs "UNSPECIFIED", 0) :: number_from 1 prefix l
   | [] => [(prefix ++ bs "UNSPECIFIED", 0)]
   end.
+Definition status_values (prefix : bytes) (l : list bytes) : list (bytes * N) := status_values_n prefix l 0.
+Definition first_status_number (e : entity) : N := match e_status_num e with n :: _ => n | [] => 0 end.
+Definition entity_status_values (e : entity) : list (bytes * N) :=
+  status_values_n (status_prefix e) (e_status e) (first_status_number e).
 Definition status_enum (e : entity) : component :=
-  CEnum (component_name e (bs "Status")) (status_values (status_prefix e) (e_status e)).
+  CEnum (component_name e (bs "Status")) (entity_status_values e).
 
 (* findStatus: the name visitEnumNode/addValue gives the status (fix 705ef70) *)
 Definition find_status (e : entity) (f : bytes) : option bytes :=
